@@ -11,6 +11,7 @@ class C01(ParserSessionProp):
     families = FAMILIES_UNIFORM
     max_len = 6
     nbest_choices = (1,)
+    penalty_choices = (0.0, 0.1, 0.1, 1.0, 10.0)      # the property is stated for penalties >= 0
     fault_classes = ('none', 'none', 'inband')
     need_poplog = True
     rule = ('case = (sentence, config, context) response of the real A* search (parsing.h) inside a simulated '
